@@ -143,9 +143,14 @@ parse_date(const char *s)
 static int
 parse_time(const char *s)
 {
-	int seconds, frames = 0;
+	unsigned long seconds;
+	int frames = 0;
 
 	seconds = strtoul(s, (char **) &s, 10);
+
+	/* seconds * 25 + frames must fit an int */
+	if (seconds > (INT_MAX - 99) / 25)
+		return -1;
 
 	if (*s)
 		if (*s != 'F'
